@@ -271,6 +271,36 @@ class LineProc:
         self.env = env
         self.p = None
         self.calls = 0
+        # no answer within this many seconds: the child is killed and the call counts as a hang (a check never waits
+        # for ever on a deadlocked implementation)
+        self.timeout = float(os.environ.get("VERIF_ASK_TIMEOUT", "240"))
+        self.hangs = 0
+        self.last_hang = False
+
+    def _readline(self):
+        """one answer line, or "" when the child died or did not answer in time (then it is killed)."""
+        import threading
+        p = self.p
+        fired = []
+
+        def kill():
+            fired.append(1)
+            try:
+                p.kill()
+            except Exception:
+                pass
+        t = threading.Timer(self.timeout, kill)
+        t.daemon = True
+        t.start()
+        try:
+            out = p.stdout.readline()
+        finally:
+            t.cancel()
+        if fired:
+            self.hangs += 1
+            self.last_hang = True
+            return ""
+        return out
 
     def start(self):
         self.p = subprocess.Popen(self.argv, stdin=subprocess.PIPE, stdout=subprocess.PIPE,
@@ -283,7 +313,8 @@ class LineProc:
         try:
             self.p.stdin.write(line + "\n")
             self.p.stdin.flush()
-            out = self.p.stdout.readline()
+            self.last_hang = False
+            out = self._readline()
         except BrokenPipeError:
             out = ""
         if out == "":
@@ -307,7 +338,7 @@ class LineProc:
             self.p.stdin.write("".join(l + "\n" for l in chunk))
             self.p.stdin.flush()
             for _ in chunk:
-                out = self.p.stdout.readline()
+                out = self._readline()
                 if out == "":
                     self.p = None
                     res.append(None)
@@ -341,7 +372,7 @@ class Impl(LineProc):
         req["Op"] = op
         out = self.ask(json.dumps(req))
         if out is None:
-            return {"harnessCrash": True}
+            return {"harnessCrash": True, "hang": self.last_hang}
         return json.loads(out)
 
 
